@@ -444,6 +444,39 @@ func (m *machine) entityRemoveThenWrite(t *rapid.T) {
 
 func ptr[T any](v T) *T { return &v }
 
+// rediscovery: the peer's discovery data for entities the stack already knows comes in again (a second
+// reply to the discovery read, or an "added" notification for an existing entity). Nothing disappears,
+// so the bindings and with them the authorisation stay as they are - also across what follows.
+func (m *machine) rediscovery(t *rapid.T) {
+	pi := m.live(t, "peer")
+	p := m.w.Peers[pi]
+	ents := regs.PeerEntities()
+	how := rapid.SampledFrom([]string{"reply", "added-[1]", "added-[2]", "added-[2 1]"}).Draw(t, "how")
+	if how == "reply" {
+		if m.ent2Gone[pi] {
+			ents = append(ents[:1:1], ents[2:]...)
+		}
+		p.Announce(ents)
+	} else {
+		i := map[string]int{"added-[1]": 0, "added-[2]": 1, "added-[2 1]": 2}[how]
+		if i == 1 && m.ent2Gone[pi] {
+			t.Skip("entity [2] is not there")
+		}
+		added := model.NetworkManagementStateChangeTypeAdded
+		data := p.DiscoveryData([]world.EntSpec{ents[i]}, &added)
+		cmd := model.CmdType{Function: ptr(model.FunctionTypeNodeManagementDetailedDiscoveryData), Filter: []model.FilterType{*model.NewFilterTypePartial()}, NodeManagementDetailedDiscoveryData: data}
+		p.Send(p.Msg(model.CmdClassifierTypeNotify, p.NM(), world.LocalNM(), false, nil, cmd))
+		m.w.Sync()
+		p.Cap.Drain()
+	}
+	m.logf("peer%d: discovery data of known entities again (%s)", pi+1, how)
+	m.ops = append(m.ops, "rediscovery")
+	if bs := m.bindings(); len(bs) > 0 {
+		b := bs[rapid.IntRange(0, len(bs)-1).Draw(t, "binding")]
+		m.write(t, b.pi, b.client, b.si, gen.ByFunction(m.w.Servers[b.si].Writable), listgen.Full, true, "")
+	}
+}
+
 func (m *machine) unbind(t *rapid.T) {
 	c := regs.DrawCall(t, m.w, "unbind")
 	if m.w.Peers[c.Peer].Gone {
@@ -496,6 +529,7 @@ func TestWriteGate(t *testing.T) {
 			"unbindThenWrite":       m.unbindThenWrite,
 			"reconnectThenWrite":    m.reconnectThenWrite,
 			"entityRemoveThenWrite": m.entityRemoveThenWrite,
+			"rediscovery":           m.rediscovery,
 			"unbind":                m.unbind,
 			"subscribe":             m.subscribe,
 			"setData":               m.setData,
